@@ -8,7 +8,8 @@
 //!        -> "<class> size=<serialized_size_in_block>"
 //!   vm <vm1_from_epoch> <vm2_from_epoch> <c|s> <epoch_packed> <hash_type>   -> v0|v1|v2|invalid-vm-version n|invalid-hash-type
 //!   dao <start_block> <pairs inDao.outDao.data(n|z|x).block(n|num).inLockArgs.outLockArgs,..>  -> ok | dao-lock-size-mismatch i
-//!   dh <header dep ids> <info block id|n> <witness m|x|b|i<k>> <cap>   -> ok <max withdraw> | invalid-out-point | invalid-dao-format | capacity-error
+//!   dh <header dep ids> <info block id|n> <witness m|x|b|i<k>> <cap> [<header ids missing from the data loader>]
+//!        -> ok <max withdraw> | invalid-out-point | invalid-dao-format | invalid-header | capacity-error
 //!        (one withdrawing DAO input; header id n = a header with number n and accumulated rate 10^16 + n*10^12; witness: m missing,
 //!         x not a WitnessArgs, b input_type absent or not 8 bytes, i<k> input_type = header-dep index k)
 //!   ctx <ins p<cap>|d<cap>|m<cap>|w<cap>.<deposit_ar>.<withdraw_ar>.<ordered>,..> <output caps>  -> ok <fee> | cap <class> | fee-error
@@ -434,7 +435,11 @@ fn exec_dh(t: &[&str], line: &str, out: &mut Out) {
     let cap = pnum(t[4]);
     let mut headers: HashMap<Byte32, HeaderView> = HashMap::new();
     let mut tb = TransactionBuilder::default().input(CellInput::new(op_of(1, 0), 0));
+    let miss: Vec<u64> = if t.len() > 5 { plist(t[5]).iter().map(|s| pnum(s)).collect() } else { vec![] };
     for id in hds.iter().chain(info.iter()) {
+        if miss.contains(id) {
+            continue;
+        }
         let h = dh_header(*id);
         headers.insert(h.hash(), h);
     }
@@ -483,6 +488,9 @@ fn exec_dh(t: &[&str], line: &str, out: &mut Out) {
             _ => pnum(&wit[1..]),
         };
         let dh = *hds.get(k as usize).ok_or("invalid-out-point")?;
+        if miss.contains(&dh) || miss.contains(&wh) {
+            return Err("invalid-header");
+        }
         if dh >= wh {
             return Err("invalid-out-point");
         }
@@ -531,7 +539,9 @@ fn gen_dh(rng: &mut Rng) -> String {
             _ => cap = u64::MAX / 2 + rng.below(1000),
         }
     }
-    format!("dh {} {} {} {}", join(&hds), info, wit, cap)
+    // a header the transaction names but the data loader does not hold (deposit, withdrawing, or unrelated)
+    let miss = if rng.chance(1, 8) { format!(" {}", match rng.below(3) { 0 => hds[0], 1 => *hds.last().unwrap(), _ => rng.range(1, 9) }) } else { String::new() };
+    format!("dh {} {} {} {}{}", join(&hds), info, wit, cap, miss)
 }
 
 pub fn exec_rules(lines: &[String], out: &mut Out) {
